@@ -81,8 +81,21 @@ def num(x) -> sp.Basic:
 
 
 # ----------------------------------------------------------------------------- operators
+_FUNCS = {}
+
+
+def F_(name: str):
+    """Opaque operator class.  Declared commutative (scalar-valued) so that products containing operators
+    whose arguments are tuples still normalise independently of spelling order."""
+    f = _FUNCS.get(name)
+    if f is None:
+        f = Function(name, commutative=True)
+        _FUNCS[name] = f
+    return f
+
+
 def op(name: str, *args) -> sp.Basic:
-    return Function(name)(*[to_term(a) for a in args])
+    return F_(name)(*[to_term(a) for a in args])
 
 
 def to_term(v) -> sp.Basic:
@@ -120,7 +133,7 @@ def AND(*args) -> sp.Basic:
         a = to_term(a)
         if a == TRUE_T:
             continue
-        if isinstance(a, sp.Basic) and a.func == Function("and_"):
+        if fname(a) == "and_":
             flat.extend(a.args)
         else:
             flat.append(a)
@@ -134,7 +147,7 @@ def AND(*args) -> sp.Basic:
         return TRUE_T
     if len(uniq) == 1:
         return uniq[0]
-    return Function("and_")(*_sorted_args(uniq))
+    return F_("and_")(*_sorted_args(uniq))
 
 
 def OR(*args) -> sp.Basic:
@@ -143,7 +156,7 @@ def OR(*args) -> sp.Basic:
         a = to_term(a)
         if a == FALSE_T:
             continue
-        if isinstance(a, sp.Basic) and a.func == Function("or_"):
+        if fname(a) == "or_":
             flat.extend(a.args)
         else:
             flat.append(a)
@@ -157,7 +170,7 @@ def OR(*args) -> sp.Basic:
         return FALSE_T
     if len(uniq) == 1:
         return uniq[0]
-    return Function("or_")(*_sorted_args(uniq))
+    return F_("or_")(*_sorted_args(uniq))
 
 
 _NEG = {"lt": "ge", "ge": "lt", "gt": "le", "le": "gt", "eq": "ne", "ne": "eq"}
@@ -192,7 +205,7 @@ def CMP(kind: str, a, b) -> sp.Basic:
         kind, a, b = "ge", b, a
     if kind in ("eq", "ne"):
         a, b = _sorted_args([a, b])
-    return Function(kind)(a, b)
+    return F_(kind)(a, b)
 
 
 def ITE(c, a, b) -> sp.Basic:
@@ -205,7 +218,7 @@ def ITE(c, a, b) -> sp.Basic:
     b = to_term(b)
     if a == b:
         return a
-    return Function("ite")(c, a, b)
+    return F_("ite")(c, a, b)
 
 
 def fname(t) -> Optional[str]:
@@ -306,3 +319,44 @@ def show(t, limit: int = 400) -> str:
     if len(s) > limit:
         s = s[: limit - 3] + "..."
     return s
+
+
+def resimplify(t: sp.Basic) -> sp.Basic:
+    """Rebuild a term bottom-up through the smart constructors (after substituting truth values)."""
+    def fn(n):
+        f = fname(n)
+        if f == "ite":
+            return ITE(n.args[0], n.args[1], n.args[2])
+        if f == "and_":
+            return AND(*n.args)
+        if f == "or_":
+            return OR(*n.args)
+        if f == "not_":
+            return NOT(n.args[0])
+        return None
+    return rewrite(t, fn)
+
+
+def assume(t: sp.Basic, facts: dict) -> sp.Basic:
+    """Substitute boolean sub-terms by truth values and simplify."""
+    m = {to_term(k): (TRUE_T if v else FALSE_T) for k, v in facts.items()}
+    return resimplify(to_term(t).xreplace(m))
+
+
+def read_elem(arr: sp.Basic, idx) -> sp.Basic:
+    """Element ``idx`` of an array term built from store/tabulate, when decidable; else item(arr, idx)."""
+    idx = to_term(idx)
+    f = fname(arr)
+    if f == "store":
+        base, i, v = arr.args
+        if i == idx:
+            return v
+        if fname(i) == "slc" and i.args == (NONE_T, NONE_T, NONE_T):
+            return v
+        if i.is_number and idx.is_number and i != idx:
+            return read_elem(base, idx)
+        return op("item", arr, idx)
+    if f == "tabulate":
+        base, pat, val, lv = arr.args
+        return op("item", arr, idx)
+    return op("item", arr, idx)
